@@ -8,7 +8,7 @@ from .c05 import modules, flat
 
 PROP = 'C17'
 MODULE = 'WaveletsVerif.Properties.C17'
-THEOREMS = ['WV.C17.per_synthesis_is_transpose', 'WV.C17.isometry_of_orthonormal']
+THEOREMS = ['WV.C17.per_refines_circular', 'WV.C17.isometry_two_tap', 'WV.C05.corr_convT_adjoint']
 OPS = ['afb1d', 'sfb1d', 'AFB1D_bwd', 'DWT1DForward', 'DWT1DInverse', 'DWTForward']
 
 
